@@ -47,7 +47,7 @@ def gen(tier, rng):
                 kinds.append("mq")
             k = rng.choice(kinds)
             if k == "mq":
-                axes = sorted(rng.sample(range(nd), 2))
+                axes = rng.sample(range(nd), 2)           # in either order: table j lies along axes[j]
             else:
                 axes = [rng.randrange(nd)]
             tabs.append([k, axes, rng.randrange(10 ** 6)])
